@@ -53,7 +53,7 @@ PLACES = {
     'PlaceLocal': {'root': 'L', 'mid': 'L', 'leaf': 'L'},
     'PlaceRemote': {'root': 'L', 'mid': 'L', 'leaf': 'R'},
 }
-SWITCHES = ('MailboxLocked', 'RegisterIfNotReady', 'DelayBeforeStart', 'CancelInPlace', 'ForgetDiscarded')
+SWITCHES = ('MailboxLocked', 'RegisterIfNotReady', 'DelayBeforeStart', 'CancelInPlace', 'ForgetDiscarded', 'DropLateBoxes')
 INV = ['NoDoubleWake', 'QueuedOnce', 'WokenNotRegistered', 'NoLostWake', 'NoHang', 'WaitingOK', 'RunAtMostOnce',
        'NoStartAfterCancel', 'NoResidue', 'NoErr', 'OrphanHasNoWaiter', 'LockDiscipline']
 HIST = dict(MailboxLocked=False, RegisterIfNotReady=False)
@@ -78,9 +78,33 @@ CONFIGS = {
     'nodelay_sharp': _c('MA', place='PlaceLocal', off=dict(DelayBeforeStart=False), inv=['WaitingOK'], live=False, expect='WaitingOK'),
     'norebind_CANB': _c('CANB', place='PlaceLocal', off=dict(CancelInPlace=False), inv=['RunAtMostOnce'], live=False, expect='RunAtMostOnce'),
     'noforget_CAN': _c('CAN', off=dict(ForgetDiscarded=False), inv=['NoResidue'], live=False, expect='NoResidue'),
-    # a defect of the CURRENT code the model found (a task cancelled while it is executing leaves the mailboxes it creates afterwards)
-    'latebox_MAX': _c('MA', cancel=True, inv=['NoLateBox'], live=False, expect='NoLateBox'),
+    # a defect the model found in the code as it was when this layer was written (a task cancelled while it is executing leaves the
+    # mailboxes it creates afterwards); DropLateBoxes is the repair proposed for it
+    'latebox_MAX': _c('MA', cancel=True, off=dict(DropLateBoxes=False), inv=['NoLateBox'], live=False, expect='NoLateBox'),
+    # the model WITH the proposed repair, whatever the tree under test looks like (model checking only)
+    'fixed_MAX': _c('MA', cancel=True), 'fixed_CAN': _c('CAN'), 'fixed_CANB': _c('CANB', place='PlaceLocal'), 'fixed_LEFT1': _c('LEFT1'),
 }
+_REPAIRED = None
+
+
+def repaired():
+    """Does the tree under test contain the repair DropLateBoxes models (Worker._drop_mailboxes_if_cancelled called right after a
+    step)?  Decided like every other binding question: by a content anchor."""
+    global _REPAIRED
+    if _REPAIRED is None:
+        common.use_repo()
+        anchors, _ = build_anchors()
+        _REPAIRED = 'stepCheck' in anchors['main'].values()
+    return _REPAIRED
+
+
+def switch_value(name, s):
+    c = CONFIGS[name]
+    if s in c['off']:
+        return c['off'][s]
+    if s == 'DropLateBoxes':
+        return True if name.startswith('fixed_') else repaired()
+    return True
 
 
 # ------------------------------------------------------------------ configuration files
@@ -92,7 +116,9 @@ def cfg_text(name, record=False, invariants=None, live=None, deadlock=None, extr
     t = 'SPECIFICATION %s\nCONSTANTS\n Prog <- P_%s\n Place <- %s\n RootFn = "root"\n EnvCancelRoot = %s\n' % (
         'FairSpec' if live else 'Spec', c['prog'], c['place'], 'TRUE' if c['cancel'] else 'FALSE')
     for s in SWITCHES:
-        t += ' %s = %s\n' % (s, 'FALSE' if c['off'].get(s) is False else 'TRUE')
+        t += ' %s = %s\n' % (s, 'TRUE' if switch_value(name, s) else 'FALSE')
+    if invariants is None and switch_value(name, 'DropLateBoxes') and c['expect'] is None and 'NoResidueStrict' not in inv:
+        inv = inv + ['NoResidueStrict']
     t += ' Record = %s\n' % ('TRUE' if record else 'FALSE')
     for i in inv:
         t += 'INVARIANT %s\n' % i
@@ -182,7 +208,8 @@ def _anchor_table():
         'paCheck': (pa, [r'if future\.mailbox_id not in self\._mailboxes:'], 'first'),
         'paReady': (pa, [r'if box\.ready:'], 'first'),
         'paAct': (pa, [r'self\._ready_task_ids\.put\(task\.return_address\)', r'box\.dest_addr = task\.return_address'], 'all'),
-        'complCheck': (pc_, [r'if task\.return_address not in self\._tasks:'], 'first'),
+        'complCheck': (pc_, [r'if task\.return_address not in self\._tasks:', r'if self\._drop_mailboxes_if_cancelled\(task\):'], 'firstof'),
+        'stepCheck': (ts, [r'if self\._drop_mailboxes_if_cancelled\(task\):'], 'first'),
         'complPop': (pc_, [r'self\._tasks\.pop\(task\.return_address, None\)'], 'first'),
         'complLoop': (pc_, [r'if mailbox_id in self\._mailboxes:'], 'first'),
     }
@@ -203,6 +230,7 @@ def _anchor_table():
         'batBody2': (ri, [r'self\._add_task\(', r'self\._delayed_tasks\.extend\(tasks\)'], ('later', r'tasks = cast\(list\[RuntimeTask\], payload\)')),
         'hcAdd': (hc, [r'self\._cancelled_task_ids\.add\(addr\)'], 'first'),
         'hcTask': (hc, [r'task\.cancel\(\)'], 'first'),
+        'hcBoxes': (hc, [r'for mailbox_id in list\(task\.owned_mailboxes\):'], 'first'),
         'hcDelayed': (hc, [r'for t in \[t for t in self\._delayed_tasks if', r'self\._delayed_tasks = \['], 'firstof'),
         'hcRemove': (hc, [r'self\._delayed_tasks\.remove\(t\)'], 'first'),
     })
@@ -216,6 +244,9 @@ def traced_functions():
     return [Wk._get_next_ready_task, Wk._try_step_next_ready_task, Wk._add_task, Wk._get_desired_result, Wk._process_await,
             Wk._process_task_completion, Wk._handle_result, Wk._handle_cancel, Wk.recv_incoming, Wk.submit, Wk.map, Wk.cancel,
             Wk.next, RuntimeTask.step]
+
+
+OPTIONAL_ANCHORS = ('stepCheck', 'hcBoxes')      # statements only the repaired code has
 
 
 def build_anchors():
@@ -252,6 +283,8 @@ def build_anchors():
                     firsts = [[i for i in h if i > base[0]][:1] for h in hits]
                     if all(firsts):
                         lines = [max(f[0] for f in firsts)]
+            if not lines and label in OPTIONAL_ANCHORS:
+                continue
             if not lines:
                 missing.append('%s (%s in %s)' % (label, ' | '.join(regs), getattr(fn, '__qualname__', fn)))
                 continue
@@ -261,15 +294,15 @@ def build_anchors():
 
 
 # control flow of the specification: the anchors a thread can reach next from each anchor ('ret' = where _handle_result returns to)
-_INS = {'submit', 'map', 'cancel', 'next', 'paLock', 'complCheck'}
+_INS = {'submit', 'map', 'cancel', 'next', 'paLock', 'stepCheck', 'complCheck'}
 SUCC_MAIN = {
     'boot': {'top'},
     'top': {'popDelayed', 'lockRR'}, 'popDelayed': {'top', 'addDelayed'}, 'addDelayed': {'putDelayed'}, 'putDelayed': {'top'},
     'lockRR': {'getNowait'}, 'getNowait': {'sendWaiting', 'lookup'}, 'sendWaiting': {'blockGet'}, 'blockGet': {'lookup'},
     'lookup': {'checkCancelled'}, 'checkCancelled': {'top', 'checkCrumbs'}, 'checkCrumbs': {'top', 'resume', 'gdrLock'},
     'gdrLock': {'gdrBody'}, 'gdrBody': {'exc', 'resume'}, 'exc': {'top'}, 'resume': {'exc'} | _INS,
-    'submit': set(_INS), 'map': set(_INS), 'cancel': {'exc'} | _INS, 'next': {'exc', 'paLock'},
-    'paLock': {'paCheck'}, 'paCheck': {'exc', 'paReady'}, 'paReady': {'paAct'}, 'paAct': {'top'},
+    'submit': set(_INS), 'map': set(_INS), 'cancel': {'exc'} | _INS, 'next': {'exc', 'paLock', 'stepCheck'},
+    'stepCheck': {'paLock', 'top'}, 'paLock': {'paCheck'}, 'paCheck': {'exc', 'paReady'}, 'paReady': {'paAct'}, 'paAct': {'top'},
     'complCheck': {'top', 'hrLock', 'complPop'}, 'complPop': {'top', 'complLoop'}, 'complLoop': {'top', 'complLoop', 'exc'},
     'hrLock': {'hrDeposit'}, 'hrDeposit': {'hrCheck', 'complPop'}, 'hrCheck': {'hrWake', 'complPop'}, 'hrWake': {'complPop', 'hrClear'},
     'hrClear': {'complPop'},
@@ -279,7 +312,7 @@ SUCC_INC = {
     'recv': {'subLock', 'batLock', 'hrLock', 'hcAdd'},
     'subLock': {'subBody'}, 'subBody': {'recv'}, 'batLock': {'batBody1'}, 'batBody1': {'batBody2'}, 'batBody2': {'recv'},
     'hrLock': {'hrDeposit'}, 'hrDeposit': {'hrCheck', 'recv'}, 'hrCheck': {'hrWake', 'recv'}, 'hrWake': {'recv', 'hrClear'}, 'hrClear': {'recv'},
-    'hcAdd': {'hcTask', 'hcDelayed'}, 'hcTask': {'hcTask', 'hcDelayed'}, 'hcDelayed': {'hcRemove', 'hcRebind', 'recv'},
+    'hcAdd': {'hcTask', 'hcDelayed'}, 'hcTask': {'hcBoxes', 'hcTask', 'hcDelayed'}, 'hcBoxes': {'hcTask', 'hcDelayed'}, 'hcDelayed': {'hcRemove', 'hcRebind', 'recv'},
     'hcRemove': {'hcRemove', 'recv'}, 'hcRebind': {'recv'},
 }
 SUCC = {'main': SUCC_MAIN, 'inc': SUCC_INC}
@@ -334,7 +367,7 @@ class FineRun:
                     if x in seen:
                         continue
                     seen.add(x)
-                    if x in gone or (x not in known and x in SUCC[who] and x not in ('hrClear', 'hcRebind')):
+                    if x in gone or (x not in known and x in OPTIONAL_ANCHORS):
                         todo += list(SUCC[who].get(x, ()))
                     else:
                         res.add(x)
@@ -1061,6 +1094,7 @@ class Handle:
             'fine_replay_drift': ndrift, 'fine_adversarial_schedules_replayed': nadv, 'fine_adversarial_actions_not_enabled': nskip,
             'fine_recorded_traces_validated': nrec, 'fine_recorded_events': nev, 'fine_recorded_traces_rejected': nrej,
             'fine_trace_states': tst, 'fine_unobservable_anchors': sorted(missing),
+            'fine_model_variant': 'DropLateBoxes=%s (chosen by the content anchor of Worker._drop_mailboxes_if_cancelled)' % repaired(),
         }
         return cov, traces, notes
 
